@@ -3,30 +3,28 @@
    Model: coq/model/PropWiz.v (property_wizard.py + the part of dataclasses it relies
    on), matrix tables: coq/model/PropWizMatrix.v.
 
-   Finding F22 (open): with an underscored property `_x`, a public field `x` holding a
-   PLAIN class-level value and an annotation whose implied default is a
-   default_factory (list / dict / set ...), property_wizard.py:162 `fval.default = v`
-   keeps that factory and the declared value never reaches the setter.  The model is
-   faithful; theorems carrying `_partial` exclude exactly that region (`cell_safe`,
-   `safe_decl`), `C16_many_faithful` has no region but the code's own default
-   (`eff_default`), `C16_refuted_plain_default` exhibits the witness. *)
+   History: finding F25 (property_wizard.py:162 `fval.default = v` kept an
+   annotation-derived default_factory, so `x: List[int] = None` + property `_x` routed a
+   fresh [] through the setter) was repaired in /repo (commit f33a064); the model is the
+   repaired behaviour and the theorems below carry no region hypothesis.  The matrix
+   cells of that shape (UnderPub x {KValue, KValueNone} x annotations implying a fresh
+   product) are part of C16_matrix, so reverting the repair breaks the correspondence
+   AND the direct predicate on concrete inputs. *)
 From DW Require Import PyStr PropWiz PropWizMatrix PropWizDict PropWizExec PropWizPass PropWizMany PropWizFinal.
 
 (* ---- the finite matrix: 4 styles x 10 default kinds x 40 annotation kinds ---------------- *)
-(* In every cell outside the F22 region the single-property class has the constructor
-   signature (wheels = <property>), the property object is wrapped and stored under
-   the public name only, constructing without the argument routes the declared default
-   (fresh per instance for factories) through the setter, constructing with a value and
-   assigning later route that value. *)
-Theorem C16_matrix_partial :
-  forall c, In c (list_prod styles (list_prod dkinds ann_table)) -> cell_safe c = true -> cell_ok c = true.
+(* In every cell the single-property class has the constructor signature
+   (wheels = <property>), the property object is wrapped and stored under the public name
+   only, constructing without the argument routes the declared default (fresh per
+   instance for factories) through the setter, constructing with a value and assigning
+   later route that value. *)
+Theorem C16_matrix :
+  forall c, In c (list_prod styles (list_prod dkinds ann_table)) -> cell_ok c = true.
 Proof. exact matrix_cells. Qed.
-Print Assumptions C16_matrix_partial.
+Print Assumptions C16_matrix.
 
-Theorem C16_matrix_size :
-  List.length (list_prod styles (list_prod dkinds ann_table)) = 1600 /\
-  List.length (filter (fun c => negb (cell_safe c)) (list_prod styles (list_prod dkinds ann_table))) = 22.
-Proof. split; vm_compute; reflexivity. Qed.
+Theorem C16_matrix_size : List.length (list_prod styles (list_prod dkinds ann_table)) = 1600.
+Proof. vm_compute; reflexivity. Qed.
 Print Assumptions C16_matrix_size.
 
 (* ---- declaration lists of any length ------------------------------------------------------ *)
@@ -40,29 +38,29 @@ Print Assumptions C16_signature.
 
 (* For ALL declaration lists with distinct public names (field properties in the four
    styles, plain fields, read-only and ordinary properties), both layouts, ALL argument
-   subsets and every allocation counter: setter log, instance and allocation are those
-   of the per-declaration specification `spec_init` with the code's own default. *)
-Theorem C16_many_faithful :
+   subsets and every allocation counter: setter log, instance (getter values) and
+   allocation are those of the per-declaration specification `spec_init`, whose default
+   for a field property is `eff_default`: the class-level value / Field when field and
+   property have different names, the default carried by Annotated or implied by the
+   type otherwise. *)
+Theorem C16_many :
   forall ds b args next,
   names_ok ds -> Layout ds b -> fields_ordered ds -> args_known ds args -> args_plain args ->
   construct (make_class b) args next =
   spec_init eff_default ds args {| log := []; inst := []; nxt := next |}.
 Proof. intros ds b args next Hok. exact (construct_closed_form ds Hok b args next). Qed.
-Print Assumptions C16_many_faithful.
+Print Assumptions C16_many.
 
-(* ... and with the DECLARED default, outside the F22 region.  Missing: declarations
-   `_x` property + `x: <mutable type> = <plain value>` (see C16_refuted_plain_default). *)
-Theorem C16_many_partial :
-  forall ds b args next,
-  names_ok ds -> Layout ds b -> fields_ordered ds -> args_known ds args -> args_plain args ->
-  forallb safe_decl ds = true ->
-  construct (make_class b) args next =
-  spec_init declared_default ds args {| log := []; inst := []; nxt := next |}.
+(* the same, spelled out for the layout "all fields first, then all properties" *)
+Theorem C16_many_fields_first :
+  forall ds args next,
+  names_ok ds -> fields_ordered ds -> args_known ds args -> args_plain args ->
+  construct (make_class (flat_map field_stmts ds ++ flat_map prop_stmts ds)) args next =
+  spec_init eff_default ds args {| log := []; inst := []; nxt := next |}.
 Proof.
-  intros ds b args next Hok L Ho Hk Hp Hs.
-  rewrite (construct_closed_form ds Hok b args next L Ho Hk Hp). now apply spec_init_safe.
+  intros ds args next Hok. exact (construct_closed_form ds Hok _ args next (or_intror eq_refl)).
 Qed.
-Print Assumptions C16_many_partial.
+Print Assumptions C16_many_fields_first.
 
 (* a class satisfying all the hypotheses: required plain field, the four styles, a
    factory, a read-only and an ordinary property; two arguments supplied *)
@@ -79,8 +77,8 @@ Definition ex_args : dict value := [(S "vin", VStr (S "X1")); (S "doors", VInt 5
 
 Example C16_many_hypotheses_hold :
   names_ok ex_ds /\ Layout ex_ds (body_fields_first ex_ds) /\ fields_ordered ex_ds /\
-  args_known ex_ds ex_args /\ args_plain ex_args /\ forallb safe_decl ex_ds = true /\
-  spec_init declared_default ex_ds ex_args {| log := []; inst := []; nxt := 0 |} =
+  args_known ex_ds ex_args /\ args_plain ex_args /\
+  spec_init eff_default ex_ds ex_args {| log := []; inst := []; nxt := 0 |} =
   Ok {| log := [(S "wheels", VInt 4); (S "doors", VInt 5); (S "tags", VNew (FacUser 1) 0); (S "owner", VNone)];
         inst := [(S "vin", VStr (S "X1")); (S "_wheels", VInt 4); (S "_doors", VInt 5);
                  (S "_tags", VNew (FacUser 1) 0); (S "_owner", VNone); (S "extra", VNew (FacConc CDict) 1)];
@@ -93,6 +91,13 @@ Proof.
   - repeat constructor.
   - repeat constructor.
 Qed.
+
+(* the declaration that used to be mishandled (F25): the declared plain default wins *)
+Example C16_plain_default_wins :
+  let d := DProp UnderPub (S "wheels") (TGen (GConc CList) false) (Some (RVal VNone)) in
+  construct (make_class (body_blocks [d])) [] 0 =
+  Ok {| log := [(S "wheels", VNone)]; inst := [(S "_wheels", VNone)]; nxt := 0 |}.
+Proof. reflexivity. Qed.
 
 (* ---- assignment after construction ----------------------------------------------------------- *)
 Theorem C16_assign :
@@ -145,21 +150,3 @@ Theorem C16_readonly_untouched :
 Proof. intros ds b d Hok. exact (untouched_closed ds Hok b d). Qed.
 Print Assumptions C16_readonly_untouched.
 
-(* ---- the defect (finding F22) ------------------------------------------------------------------ *)
-(* `wheels: List[int] = None` + property `_wheels`: Vehicle() passes a fresh list to the
-   setter although the declared default is None; the matrix cell fails. *)
-Theorem C16_refuted_plain_default :
-  let d := DProp UnderPub (S "wheels") (TGen (GConc CList) false) (Some (RVal VNone)) in
-  names_ok [d] /\ fields_ordered [d] /\
-  construct (make_class (body_blocks [d])) [] 0 =
-    Ok {| log := [(S "wheels", VNew (FacConc CList) 0)]; inst := [(S "_wheels", VNew (FacConc CList) 0)]; nxt := 1 |} /\
-  spec_init declared_default [d] [] {| log := []; inst := []; nxt := 0 |} =
-    Ok {| log := [(S "wheels", VNone)]; inst := [(S "_wheels", VNone)]; nxt := 0 |} /\
-  (exists c, In c (list_prod styles (list_prod dkinds ann_table)) /\ cell_ok c = false).
-Proof.
-  cbv zeta. repeat split.
-  - repeat constructor; cbn; intuition discriminate.
-  - repeat constructor.
-  - exact matrix_refuted.
-Qed.
-Print Assumptions C16_refuted_plain_default.
